@@ -43,7 +43,18 @@ def compile_probes(prop, P):
 
 
 def run(prop, P, tier, seed, replay, extra):
-    bins = build_all(prop, P)
+    build_failure = None
+    try:
+        bins = build_all(prop, P)
+    except D.BuildError as e:
+        # The library no longer compiles under the harness.  If one of the registered compile probes (public uses
+        # that must compile) fails too, that probe is the verdict; otherwise it is a harness error.
+        pv0, _ = compile_probes(prop, P)
+        if not pv0 or replay:
+            raise
+        build_failure = str(e)
+        bins = []
+        print("note: the harness binaries do not build against this tree; reporting the failing compile probes only")
     if replay:
         r = json.load(open(replay))
         if r.get("shard") == "compile_probe":
@@ -81,7 +92,7 @@ def run(prop, P, tier, seed, replay, extra):
     pv, nprobes = compile_probes(prop, P)
     all_viol += pv
 
-    tot = {"evaluations": 0, "nontrivial": 0, "complete": True, "samples": [], "counters": {}, "info": {}, "shards": []}
+    tot = {"evaluations": 0, "nontrivial": 0, "complete": build_failure is None, "samples": [], "counters": {}, "info": {}, "shards": []}
     for m in merged:
         tot["evaluations"] += m["evaluations"]
         tot["nontrivial"] += m["nontrivial"]
